@@ -640,13 +640,17 @@ func (u *UlimitsConfig) DecodeMapstructure(value interface{}) error {
 		u.Hard = 0
 	case map[string]any:
 		u.Single = 0
-		soft, ok := v["soft"]
-		if ok {
-			u.Soft = soft.(int)
+		if soft, ok := v["soft"]; ok {
+			u.Soft, ok = soft.(int)
+			if !ok {
+				return fmt.Errorf("unexpected value type %T for ulimit soft limit", soft)
+			}
 		}
-		hard, ok := v["hard"]
-		if ok {
-			u.Hard = hard.(int)
+		if hard, ok := v["hard"]; ok {
+			u.Hard, ok = hard.(int)
+			if !ok {
+				return fmt.Errorf("unexpected value type %T for ulimit hard limit", hard)
+			}
 		}
 	default:
 		return fmt.Errorf("unexpected value type %T for ulimit", value)
